@@ -181,17 +181,21 @@ Definition bm_valid (i : bm_in) : option Z :=
   | Some z => if Z.leb 1 n && Z.leb n 256 && Z.leb 0 j && Z.ltb j n && Z.leb 0 z && Z.ltb z (2 ^ n) then Some z else None
   | None => None
   end.
-(* valid committee, index and bitmap: the answer is the bitmap's bit j; an out-of-range bitmap never yields an answer *)
+(* valid committee, index and bitmap: the answer is the bitmap's bit j; an out-of-range bitmap never yields an answer.
+   (Judge soundness, Proofs/JudgeSoundC18P.v: the exemption for a negative big.Int used to be tested BEFORE the
+   committee size and the index, so with a negative bitmap any answer was accepted even for n = 300 or j >= n, where
+   C18_bitmap_refusals demands a refusal whatever the bitmap; witness bm_ok_before_unsound.  The exemption now
+   applies only where the bitmap is looked at: committee size and index valid.) *)
 Definition bm_ok (i : bm_in) (o : N) : bool :=
   let '(b, j, n) := i in
   match bm_valid i with
   | Some z => N.eqb o (if Z.testbit z j then 1 else 0)
   | None =>
       match b with
-      | Some z => if Z.leb 0 z && Z.leb 1 n && Z.leb n 256 && Z.leb 0 j && Z.ltb j n
-                  then N.leb 2 o                (* 0 <= z but z >= 2^n: must be refused *)
-                  else if Z.ltb z 0 then true   (* negative big.Int: not an on-chain value *)
-                  else N.leb 2 o
+      | Some z => if Z.leb 1 n && Z.leb n 256 && Z.leb 0 j && Z.ltb j n
+                  then (if Z.ltb z 0 then true  (* negative big.Int: not an on-chain value *)
+                        else N.leb 2 o)         (* 0 <= z but z >= 2^n: must be refused *)
+                  else N.leb 2 o                (* committee size or index out of range: refused whatever the bitmap *)
       | None => N.leb 2 o
       end
   end.
